@@ -37,6 +37,8 @@ pub struct RunCfg {
     pub nops: usize,
     pub profile: Profile,
     pub fsck_every_op: bool,
+    /// C11: after every call only the unique-names clause is demanded (a failed call may leave the file it worked on half done)
+    pub fsck_names_only: bool,
     pub mirror_every_op: bool,
     pub crash_prefixes: bool,
     pub flushed_survives: bool,
@@ -56,7 +58,7 @@ pub struct RunCfg {
 
 impl RunCfg {
     pub fn base(nops: usize, profile: Profile) -> RunCfg {
-        RunCfg { nops, profile, fsck_every_op: false, mirror_every_op: false, crash_prefixes: false, flushed_survives: false, quiesce_every: 0, tree_at_quiescent: false, leak_at_quiescent: false, remount_at_quiescent: false, compare_reads: false, region_oracle: false, info_oracle: false, reenter: false, faults: vec![], script: None }
+        RunCfg { nops, profile, fsck_every_op: false, fsck_names_only: false, mirror_every_op: false, crash_prefixes: false, flushed_survives: false, quiesce_every: 0, tree_at_quiescent: false, leak_at_quiescent: false, remount_at_quiescent: false, compare_reads: false, region_oracle: false, info_oracle: false, reenter: false, faults: vec![], script: None }
     }
 }
 
@@ -301,6 +303,39 @@ pub fn run_case(rng: &mut Rng, sc: &Scenario, cfg: &RunCfg, model: &mut Model, r
             rep.violation("impl-vs-spec", &format!("panic:{}", op.kind()), &format!("`{}` panicked", op.show()),
                 replay_of(&ops, &outcomes, sidx, sc, J::obj(vec![("op", J::s(op.show()))])));
         }
+        // (C07) a refused call changes nothing on the medium
+        {
+            let refusal = ["err TooMany", "err BadHandle", "err NotFound", "err FileAlreadyOpen", "err FileAlreadyExists", "err DirAlreadyExists", "err ReadOnly", "err OpenedDirAsFile", "err OpenedFileAsDir", "err DeleteDirAsFile", "err FilenameError", "err VolumeStillInUse", "err VolumeAlreadyOpen", "err InvalidOffset", "err NoSuchVolume", "err LockError"];
+            if refusal.iter().any(|r| out.res.starts_with(r)) {
+                rep.oracle_checks += 1;
+                if !out.writes.is_empty() && !faulted {
+                    local_violation = true;
+                    rep.violation("impl-vs-spec", &format!("refused-call-wrote:{}", op.kind()), &format!("`{}` was refused with `{}` but issued {} device writes (first to block {})", op.show(), out.res, out.writes.len(), out.writes[0].0),
+                        replay_of(&ops, &outcomes, sidx, sc, J::obj(vec![("op", J::s(op.show()))])));
+                }
+            }
+        }
+        // (C08) limits are exact: the matching too-many error exactly when the table is full
+        {
+            let expect_too_many: Option<(&str, bool)> = match &op {
+                Op::OpenFile(..) => Some(("err TooManyOpenFiles", gs.files.len() >= sc.limits.1)),
+                Op::OpenDir(..) | Op::Mkdir(..) | Op::OpenRoot(_) => Some(("err TooManyOpenDirs", gs.dir_slots_used >= sc.limits.0)),
+                Op::OpenVolume(_) => Some(("err TooManyOpenVolumes", gs.vols.len() >= sc.limits.2)),
+                _ => None,
+            };
+            if let Some((err, full)) = expect_too_many {
+                rep.oracle_checks += 1;
+                // handle errors that are checked before the limit do not exist for these calls, except the lock
+                if !faulted && out.res != "panic" && ((full && out.res != err) || (!full && out.res == err)) {
+                    local_violation = true;
+                    rep.violation("impl-vs-spec", &format!("limit-not-exact:{}", op.kind()), &format!("`{}` returned `{}` with the table {} (limits {:?})", op.show(), truncate(&out.res, 60), if full { "full" } else { "not full" }, sc.limits),
+                        replay_of(&ops, &outcomes, sidx, sc, J::obj(vec![("op", J::s(op.show()))])));
+                }
+                if full {
+                    rep.count("limit:reached");
+                }
+            }
+        }
         // (C01) byte-array model
         match &op {
             Op::Read(f, n) => {
@@ -500,7 +535,7 @@ pub fn run_case(rng: &mut Rng, sc: &Scenario, cfg: &RunCfg, model: &mut Model, r
                 }
                 lines.push(Line { req: geom_line(&v.layout), expect: Expect::Setup, step: sidx });
                 if cfg.fsck_every_op {
-                    lines.push(Line { req: "fsck live".to_string(), expect: Expect::OraclePrefix("ok".into(), format!("after:{}:{}", op.kind(), res_key)), step: sidx });
+                    lines.push(Line { req: (if cfg.fsck_names_only { "fsck names" } else { "fsck live" }).to_string(), expect: Expect::OraclePrefix("ok".into(), format!("after:{}:{}", op.kind(), res_key)), step: sidx });
                 }
                 if cfg.mirror_every_op && v.layout.num_fats > 1 {
                     lines.push(Line { req: "mirror".to_string(), expect: Expect::OraclePrefix("ok".into(), format!("fat-mirror-after:{}", op.kind())), step: sidx });
@@ -509,7 +544,7 @@ pub fn run_case(rng: &mut Rng, sc: &Scenario, cfg: &RunCfg, model: &mut Model, r
         }
         // (C05) a refused write means the volume is really full
         if let Op::Write(f, _) = &op {
-            if out.res == "err DiskFull" || out.res == "err NotEnoughSpace" {
+            if (out.res == "err DiskFull" || out.res == "err NotEnoughSpace") && !faulted {
                 if let Some(v) = op_vol {
                     lines.push(Line { req: geom_line(&sc.vols[v].layout), expect: Expect::Setup, step: sidx });
                     lines.push(Line { req: "free".to_string(), expect: Expect::OraclePrefix("0".into(), "disk-full-with-free-clusters".into()), step: sidx });
@@ -1117,7 +1152,8 @@ pub fn c11(ctx: &Ctx) -> Report {
             let mut cfg2 = cfg.clone();
             cfg2.script = Some(base.ops.clone());
             cfg2.faults = vec![*pt];
-            cfg2.fsck_every_op = true; // includes the unique-names clause after the faulty call and after the continuation
+            cfg2.fsck_every_op = true;
+            cfg2.fsck_names_only = true; // the unique-names clause after the faulty call and after the continuation
             let mut r2 = Rng::new(1);
             run_case(&mut r2, &sc, &cfg2, &mut model, &mut rep, &format!("c11/{}/{k}/fault@{}:{}", ctx.seed, pt.0, pt.1));
             sweeps += 1;
@@ -1130,6 +1166,7 @@ pub fn c11(ctx: &Ctx) -> Report {
             let nf = rng.range(2, 4);
             cfg3.faults = (0..nf).map(|_| { let i = rng.below(base.ops.len() as u64) as usize; (i, rng.below(base.device_calls[i].max(1))) }).collect();
             cfg3.fsck_every_op = true;
+            cfg3.fsck_names_only = true;
             let mut r3 = Rng::new(2);
             run_case(&mut r3, &sc, &cfg3, &mut model, &mut rep, &format!("c11/{}/{k}/multi{m}", ctx.seed));
         }
